@@ -428,6 +428,22 @@ def c09_structured(seed, tier):
     for tok in tokens:
         texts += [tok + base, base + tok, tok + "\n" + base, "\n" + tok + base, base[:mid] + tok + base[mid:], tok, tok * 3 + base]
     texts.append(base.replace("\n", "\r\n"))
+    # mappings whose names repeat or look like numbered copies of each other (a valid file: names are only labels)
+    import itertools
+    fam = ["Piano", "Piano (1)", "Piano (2)", "Piano (3)", "Piano (4)", "Piano_2", "piano", " Piano", ""]
+    def named(names):
+        out = ['collision_mode = "off"', "exit_sequence = []", "[identifier]", "  bus = 0", "[defaults]", "  octave = 0", "  semitone = 0",
+               "  channel = 1", "  mapping = %s" % q(names[0]), "  velocity = 64", "[action_mapping]"]
+        for i, nm in enumerate(names):
+            out += ["[[mapping]]", "  name = %s" % q(nm), "  [[mapping.keys]]", '    subhandler = ""', "    [mapping.keys.map]",
+                    '      KEY_A = "%d"' % (60 + i)]
+        return "\n".join(out) + "\n"
+    for k in (2, 3, 4):
+        for names in itertools.islice(itertools.product(fam[:5], repeat=k), 0, None, 1 if k < 4 else 7):
+            if len(set(names)) < k or any("(" in n for n in names):
+                texts.append(named(list(names)))
+    texts.append(named(["Piano"] * 12))
+    texts.append(named(fam))
     texts += ["", "\n", "[[mapping.keys]]\n", "[[mapping.keys]]\nsubhandler = \"\"\n[mapping.keys.map]\nKEY_A = \"1\"\n",
               "[[mapping.analog]]\n[mapping.analog.map]\nABS_X = { type = \"cc\" }\n", "mappin = \"Default\"\n", "velcity = 64\n",
               "[defaults]\nvelcity = 64\n", "[[mapping]]\nnam = 1\n", "[[mapping]]\n[[mapping.keys]]\nsubhandlr = 1\n",
